@@ -333,6 +333,23 @@ def run(ctx, driver):
                     rec.fail("class-does-not-match-cause", {"proto": "h2-concurrent", "cause": "stream-reset-by-server", "got": "LocalProtocolError"},
                              {"runtime": rt, "cfg": cfg, "seed": seed, "caller": c.idx, "exception": getattr(c, "exc", None),
                               "trace": [list(map(str, t)) for t in ex.trace][-40:], "how_to_replay": "h2x.run_one(runtime, cfg, seed)"})
+    # several requests start on a connection that is still being set up, and some are cancelled at any point of that (the connection preface
+    # included): whoever is left gets a documented exception or its response
+    for i in range(120 if ctx.quick else 4000):
+        cfg = {"max_connections": 1, "callers": 3, "p_cancel": 0.3, "cancel_phase": "any", "spawn_all_first": True, "segment": "coarse",
+               "init_max_streams": 10, "ups": [0, 0, 300], "max_steps": 80}
+        seed = rng.randrange(1 << 30)
+        rt = ("asyncio", "trio")[i % 2]
+        ex = h2x.run_one(rt, cfg, seed)
+        rec.evals += 1
+        rec.distinct.add(("h2x-early-cancel", rt, tuple(map(str, ex.trace))))
+        for c in ex.callers:
+            rec.dist[f"h2-early-cancel:{c.outcome}"] += 1
+            if c.outcome == "error:Other":
+                cls = getattr(c, "exc", "?").split("(")[0]
+                rec.fail("undocumented-exception", {"proto": "h2-concurrent", "class": cls},
+                         {"runtime": rt, "cfg": cfg, "seed": seed, "caller": c.idx, "exception": getattr(c, "exc", None),
+                          "trace": [list(map(str, t)) for t in ex.trace][-40:], "how_to_replay": "h2x.run_one(runtime, cfg, seed)"})
     # bytes no HTTP/2 peer may send, while several streams are alive, and nothing else going wrong: every caller that fails fails with
     # RemoteProtocolError - whichever of them happened to be reading when the garbage arrived
     stored_g = [(k["replay_args"]["runtime"], k["replay_args"]["cfg"], k["replay_args"]["seed"]) for k in core.load_known()
